@@ -18,6 +18,10 @@ CLAIMED = {
                  "the structure catalogue, not for sampled ones.",
             "Bounded: structures of <= 4 variables, domain <= 3, arity <= 3, integer costs |c| <= 2^40; numpy storage replaced by "
             "object arrays; sleep-set reduction assumes handlers only touch their own computation.", "4/C01", S),
+    "C02": ("S", "Real SyncBBComputation objects on the real ordered graph with symbolic binary cost tables and solver-chosen start/delivery orders; "
+                 "termination, terminate-flood and brute-force optimality of the held assignment are decided by z3 on every path. Inside the listed "
+                 "known-finding region (min objective with a negative cost) counterexamples are reported as KNOWN-FINDING, outside it any counterexample is a violation.",
+            "Bounded: <= 3 variables (4 thorough), domain 2 (3 thorough), integer costs |c| <= 2^40; a run longer than 400 transitions counts as non-termination.", "4/C02", S),
     "C06": ("S", "find_arg_optimal / find_optimal / optimal_cost_value / projection and the A-DSA helper are executed on tables whose "
                  "entries are symbolic integers or infinities, and real DSA (A/B/C), A-DSA and DSA-tuto computations run on the bench; "
                  "z3 decides on every path that the returned set is exactly the arg-optimum set with its cost and that every DSA move is a best response.",
